@@ -16,7 +16,7 @@ _mon = sys.monitoring
 class LineMonitor:
     def __init__(self):
         self.sched = None
-        self.codes = set()
+        self.codes = {}
         self.installed = False
         self.active = False
 
@@ -31,9 +31,11 @@ class LineMonitor:
         boot.MONITOR = self
 
     def register_code(self, co):
-        if co in self.codes:
+        # by identity: code objects compare by value, and an equal but distinct object (the same statement
+        # compiled again for another shipped source) needs its own registration
+        if id(co) in self.codes:
             return
-        self.codes.add(co)
+        self.codes[id(co)] = co
         _mon.set_local_events(TOOL, co, _mon.events.LINE)
         for c in co.co_consts:
             if isinstance(c, types.CodeType):
@@ -86,6 +88,8 @@ class LineMonitor:
         if cur is None or cur.thread.ident != _thread.get_ident() or cur.notrace:
             return
         s.line_events += 1
+        if s.keep_log:
+            s.line_log.append((code.co_name, lineno))
         if s.line_events in plan:
             s.probe("preempt-fired")
             s.preempt_sites.append(f"{code.co_name}:{lineno}")
